@@ -290,13 +290,15 @@ func VerifC14_Repeated() {
 	n := zzBound("rows", 2, 3)
 	var rows []any
 	var ons, bolds []bool
+	var cnts []int
 	for r := 0; r < n; r++ {
 		on := zzBool("on")
 		bold := zzBool("bold")
-		ons, bolds = append(ons, on), append(bolds, bold)
-		rows = append(rows, map[string]any{"id": r + 1, "on": on, "bold": bold})
+		cnt := []int{0, 3}[zzChoice("cnt", 2)] // a number read through a negated path
+		ons, bolds, cnts = append(ons, on), append(bolds, bold), append(cnts, cnt)
+		rows = append(rows, map[string]any{"id": r + 1, "on": on, "bold": bold, "cnt": cnt})
 	}
-	el := `<b style="color:red" class="base" title="static" v-show="ROW.on" :class="{bold: ROW.bold}" :data-id="ROW.id">x</b>`
+	el := `<b style="color:red" class="base" title="static" v-show="ROW.on" :class="{bold: ROW.bold, empty: !ROW.cnt}" :data-id="ROW.id" :data-empty="!ROW.cnt" :data-full="ROW.cnt">x</b>`
 	var body string
 	switch how {
 	case 0: // loop body
@@ -331,6 +333,8 @@ func VerifC14_Repeated() {
 			zzAssert(strings.Contains(tag, `title="static"`), "C14.repeated.static-attribute-kept")
 			zzAssert(strings.Contains(tag, "display:none") == !ons[r], "C14.repeated.v-show")
 			zzAssert(strings.Contains(tag, "bold") == bolds[r], "C14.repeated.class-object")
+			zzAssert(strings.Contains(tag, "empty") == (cnts[r] == 0) && strings.Contains(tag, "data-empty=") == (cnts[r] == 0), "C14.repeated.negated-path")
+			zzAssert(strings.Contains(tag, "data-full=") == (cnts[r] != 0), "C14.repeated.falsy-omitted")
 			zzAssert(strings.Contains(tag, "base"), "C14.repeated.static-class-kept")
 			zzAssert(!strings.Contains(tag, "v-show") && !strings.Contains(tag, ":class"), "C14.repeated.directive-leaked")
 		}
